@@ -326,6 +326,9 @@ def check_helper(case, ctx):
     kv1_arg = tuple(kv1) if d.get("kv_tuple") else kv1          # the helpers document list or tuple
     cp2 = helpers.knot_removal(p, kv1_arg, cp1, u, num=rr, s=s1, span=span1)
     kv1_keep = list(kv1)
+    # the documented call names only 'num'; multiplicity and span are then found by the helper itself
+    cp2_default = helpers.knot_removal(p, kv1_arg, cp1, u, num=rr)
+    ctx.check(cp2_default == cp2, "helper-defaults", "knot_removal(..., num=%d) without s/span differs from the call with the found multiplicity %d and span %d" % (rr, s1, span1))
     kv2 = list(helpers.knot_removal_kv(kv1_arg, span1, rr))
     ctx.label("helper-modified-its-knot-vector-argument", list(kv1) != kv1_keep)          # observed only: the property makes no claim about it
     kv1 = kv1_keep
